@@ -10,10 +10,10 @@ import (
 
 func init() {
 	register(&propDef{
-		ID:    "C12",
-		Level: "other",
+		ID:      "C12",
+		Level:   "other",
 		Explain: "Gate dominance and fail-closed decisions, decided on every CFG path: (G1) in HTTPProxy.ServeHTTP every upstream-contact site and the redirect response is dominated by the false edge of Target.AccessDeniedHTTP and the true edge of Target.Authorized, both applied to the looked-up target; (G2) in every tcp.Handler implementation every dial is dominated by the false edge of AccessDeniedTCP on the target whose address is dialled; (S1) the deny edges answer 403/401 and return; (F1) decision functions deny on anomaly edges (nil parsed IP with rules configured, unknown auth scheme); (F2) a failing ProcessAccessRules in addTarget leaves a deny-all rule set; (F3) in denyByIP an allow list returns 'not denied' only under Contains==true and denies at the end, a deny list denies under Contains==true; (X1) the X-Forwarded-For loop cannot be left early except by denying. (A1) an auth scheme answers true only from the Match of its credential store on this request. (X1) the text of an X-Forwarded-For element handed to net.ParseIP is the element itself (split/trim), with no substring surgery on the way; Not decided: CIDR arithmetic of net.IPNet.Contains, credential checking of the auth schemes (values).",
-		Run:   runC12,
+		Run:     runC12,
 		Trusted: []string{"net/http sets Request.RemoteAddr to ip:port (SplitHostPort cannot fail there)", "all fabio listeners yield *net.TCPAddr remote addresses", "net.IPNet.Contains implements CIDR membership"},
 		Mutants: []mutant{
 			{Name: "port stripped from X-Forwarded-For elements at the last colon", File: "route/access_rules.go", Old: "\t\t\txip = strings.TrimSpace(xip)\n", New: "\t\t\txip = strings.TrimSpace(xip)\n\t\t\tif i := strings.LastIndexByte(xip, ':'); i > 0 {\n\t\t\t\txip = xip[:i]\n\t\t\t}\n", Expect: "C12.X1"},
